@@ -1,0 +1,16 @@
+//go:build verif
+
+package http
+
+import "net/http"
+
+// Hooks for the deterministic-simulation harness in /verif. Only compiled with
+// the "verif" build tag.
+
+// VerifHandler returns the root HTTP handler of the API server, exactly as it
+// is installed on the underlying http.Server.
+func (s *Server) VerifHandler() http.Handler { return s.httpServer.Handler }
+
+// VerifHandler returns the root HTTP handler of the proxy server, exactly as
+// it is installed on the underlying http.Server.
+func (s *ProxyServer) VerifHandler() http.Handler { return s.httpServer.Handler }
